@@ -493,3 +493,49 @@ Theorem C04_dw_version6_8_3d_refuted :
   hat222_exact_after 6 true steps3 = Some (false, [5; 6; 6]%Z).
 Proof. vm_compute. repeat split. Qed.
 Print Assumptions C04_dw_version6_8_3d_refuted.
+
+(* ================================================================================================================== *)
+(* Phase 4 (appended).  Cell strategy: the two hypotheses of C04_cell_multilinear_exact are now theorems.
+   (1) initialize_refinement: for EVERY dimension, minimum level >= 0 and non-degenerate domain the initial state satisfies the tiling
+       invariant CInv and the width/level + parent-closure invariant DInv (no child created by split_cell_arbitrary_dim is already in
+       cell_dict: cells of one pass have disjoint interiors, cells of different passes have different widths) - Proofs/CellInit.v;
+   (2) no KeyError: in every reachable state every relevant parent of every container cell is in cell_dict (the cell found under a parent
+       key carries the level vector with that level decreased by one, by width = (b-a)/2^level) - Proofs/CellDefined.v.
+   Hence: for every dimension, lmin, domain and EVERY sequence of refinement rounds the evaluation returns a value, and for every multilinear
+   monomial that value is the exact moment. *)
+From SG Require Import Proofs.CellDefined Proofs.CellInit.
+Theorem C04_cell_multilinear_exact_unconditional : forall dim lmin a b rounds ex,
+  wfbox a b -> length a = dim -> (0 <= lmin)%Z -> length ex = dim -> Forall (fun n => (n <= 1)%nat) ex ->
+  cell_integral (cell_run (cell_init dim lmin a b) rounds) (monomial ex) = Some (bmom a b ex).
+Proof. exact cell_multilinear_exact_unconditional. Qed.
+Theorem C04_cell_no_keyerror : forall dim lmin a b rounds f,
+  wfbox a b -> length a = dim -> (0 <= lmin)%Z -> exists v, cell_integral (cell_run (cell_init dim lmin a b) rounds) f = Some v.
+Proof. exact cell_no_keyerror. Qed.
+Theorem C04_cell_init_invariants : forall dim lmin a b ex,
+  wfbox a b -> length a = dim -> (0 <= lmin)%Z -> length ex = dim -> Forall (fun n => (n <= 1)%nat) ex ->
+  CInv ex (cell_init dim lmin a b) /\ DInv (cell_init dim lmin a b).
+Proof. exact cell_init_invariants. Qed.
+Theorem C04_cell_refine_preserves_dinv : forall st k, DInv st -> DInv (refine_cell st k).
+Proof. exact refine_cell_dinv. Qed.
+Theorem C04_cell_parent_levels : forall a b dim, (forall d, (d < dim)%nat -> (nth d a 0 < nth d b 0)%Qc) ->
+  forall lmin d lv k p lvp, cWL a b dim k lv -> (d < dim)%nat -> (0 <= lmin)%Z -> parent_key a b lmin d lv k = Some p ->
+  cWL a b dim p lvp -> lvp = bump_lv d (-1) lv.
+Proof. exact parent_levels. Qed.
+Print Assumptions C04_cell_multilinear_exact_unconditional.
+Print Assumptions C04_cell_no_keyerror.
+Print Assumptions C04_cell_init_invariants.
+Print Assumptions C04_cell_refine_preserves_dinv.
+Print Assumptions C04_cell_parent_levels.
+
+(* non-vacuity: the unconditional theorem on the history of C04_cell_nonvacuous, without any checker *)
+Example C04_cell_unconditional_nonvacuous :
+  cell_integral (cell_run (cell_init 2 1 cell_a cell_b) cell_rounds) (monomial [1%nat; 0%nat]) = Some (q 1 1).
+Proof.
+  rewrite (C04_cell_multilinear_exact_unconditional 2 1 cell_a cell_b cell_rounds [1%nat; 0%nat]).
+  - f_equal. apply Qc_is_canon. vm_compute. reflexivity.
+  - unfold cell_a, cell_b, q. simpl. split; [|split]; try exact I; apply Qclt_alt; vm_compute; reflexivity.
+  - reflexivity.
+  - discriminate.
+  - reflexivity.
+  - repeat constructor.
+Qed.
